@@ -29,10 +29,14 @@ RULE = {
             "distinct = distinct Coq case terms"),
     "C06": ("rtu/binary: streams of 1-4 valid frames (both directions, mixed classes): ALL cut sets of streams <= 12 "
             "bytes, every single cut, sampled double cuts, random k-cuts, byte-at-a-time, frame-aligned reads with "
-            "random sub-cuts, empty reads interspersed. non-trivial = at least one frame was delivered"),
+            "random sub-cuts, empty reads interspersed; size-extreme frames (PDU 1, 2, 250-253 bytes) whole and cut near "
+            "both ends; a frame for a unit not served in front of / between / behind served frames. "
+            "non-trivial = at least one frame was delivered"),
     "C07": ("rtu/binary: valid frames x every single-bit flip, every double-bit flip of 8-byte frames (sampled for "
             "longer ones), byte substitution by all 256 values at every position of short frames, deletion / insertion "
-            "/ truncation at every offset, alone and preceded / followed by valid frames (same read and next read). "
+            "/ truncation at every offset, alone and preceded / followed by valid frames in separate reads and in the SAME "
+            "read (valid+corrupt, valid+corrupt+valid, corrupt+valid+valid, split variants); binary: noise bytes in front "
+            "plus bytes inserted after '{'. "
             "non-trivial = the corrupted bytes differ from every valid frame of the case"),
     "C11": ("rtu/binary: garbage prefixes (random bytes, corrupted / truncated frames, foreign-unit frames, delimiter "
             "runs, short brace pairs) followed by 10-14 valid frames, one per read and several per read, bare framer "
@@ -61,19 +65,22 @@ MANIFEST_PART = {
                      "framer (never un-escapes) and the wrong RTU size oracles."),
             "note": ("Trusted: Coq kernel, translator shape matching, the hand model of the framers' control flow tied "
                      "by correspondence on every run, decode as an oracle.")},
-    "C06": {"text": ("RTU/binary half: theorems over all chunkings (lists of arbitrary chunks, empty ones included): RTU "
-                     "delivery is chunking-independent whenever at most one frame completes per read (the remaining "
-                     "defect is one frame per call, refuted with witness); binary only for cuts at frame boundaries or "
-                     "one byte into a frame and delimiter-free frames (refuted otherwise)."),
+    "C06": {"text": ("RTU/binary half: theorems over all chunkings (lists of arbitrary chunks, empty ones included): after the "
+                     "repairs to the RTU receive loop, RTU delivery is fully chunking-independent for every class with a "
+                     "prefix-stable size rule (any cuts, several frames per read, frames of units not served skipped; still "
+                     "refuted for Read Device Identification responses); binary only for cuts at frame boundaries or one "
+                     "byte into a frame and delimiter-free frames (refuted otherwise); both while loops proved terminating."),
             "note": "Trusted as for C03; correspondence runs all cut sets of short streams on the real framers."},
-    "C07": {"text": ("RTU/binary half: gate theorems for every receiver state and input (each delivered message is "
-                     "justified by a span of the received bytes whose bitwise CRC-16 matches), and detection-power "
+    "C07": {"text": ("RTU/binary half: gate theorems for every receiver state and input (each message delivered anywhere in "
+                     "the RTU drain loop is justified by a span of the received bytes whose bitwise CRC-16 matches; binary: "
+                     "first delivery of a call when the buffer starts with '{', unrestricted gate refuted: stale start), and detection-power "
                      "theorems about the CRC itself: xor-linearity, every odd number of flipped bits at any length, "
                      "every double-bit error in frames < 32767 bits, every burst <= 16 bits."),
             "note": "Trusted as for C03; the reference receiver (spec side) judges what the real framers delivered."},
-    "C11": {"text": ("RTU/binary half: from every RTU receiver state, once the buffered bytes reach the largest extent "
-                     "the size oracle can return (explicit bound), the receiver is synchronised again and delivers every "
-                     "following valid frame; binary partial (delimiter-free frames, handler reset)."),
+    "C11": {"text": ("RTU/binary half: on the request table, for every buffer content and arrival pattern a normally returning "
+                     "call leaves fewer than 268 bytes buffered (explicit bound = largest extent of the size oracle) and every "
+                     "delivery is CRC-justified; from the synchronised state valid frames in any grouping are all delivered; "
+                     "response table refuted (FIFO 16 MB extent, MEI); binary partial (delimiter-free frames, one per read)."),
             "note": "Trusted as for C03; garbage-then-valid-traffic runs on the real framers."},
 }
 
@@ -453,10 +460,12 @@ def pick_frames(r, pool, n, kind, want_clean=True):
     return out
 
 
-def stream_case(kind, client, frames, chunks, label, reset=False):
-    units = sorted(set(f[2] for f in frames)) if frames else [1]
+def stream_case(kind, client, frames, chunks, label, reset=False, units=None):
+    if units is None:
+        units = sorted(set(f[2] for f in frames)) if frames else [1]
     run = drive(kind, client, units, False, reset, chunks)
-    expect = [(f[3], f[2]) for f in frames]
+    served = lambda u: u in units or 0 in units or 255 in units
+    expect = [(f[3], f[2]) for f in frames if served(f[2])]
     term = "(%s,\n %s)" % (scase_t(run), lst(del_t(d) for d in expect))
     desc = run_desc(run, frames=[[f[0], f[2], f[3].hex(), f[4].hex()] for f in frames],
                     size_ok=all(kind != "rtu" or size_ok(client, f[4]) for f in frames),
@@ -546,6 +555,21 @@ def suite_c06(tier):
                     cases.append(stream_case(kind, client, fs, sprinkle_empty(r, ch, 0.1), "aligned+sub"))
                 cases.append(stream_case(kind, client, fs, [f[4] for f in fs], "one-per-read"))
                 cases.append(stream_case(kind, client, fs, [stream], "all-in-one"))
+                # a frame for a unit that is not served, in front of / between / behind served frames:
+                # it must be skipped, the frames of served units delivered
+                if rep % 3 != 2 and len(fs) >= 1:
+                    name0, spec0 = fs[0][0], fs[0][1]
+                    m9, d9, p9 = packet_of(kind, spec0, 9)
+                    if not (kind == "bin" and has_delim(p9[1:-1])):
+                        f9 = (name0, spec0, 9, bytes([int(m9.function_code)]) + d9, p9)
+                        served_units = sorted(set(f[2] for f in fs) - {9}) or [1]
+                        for pos in sorted(set([0, len(fs) // 2, len(fs)])):
+                            fx = fs[:pos] + [f9] + fs[pos:]
+                            sx = b"".join(f[4] for f in fx)
+                            cases.append(stream_case(kind, client, fx, [sx], "foreign:all-in-one", units=served_units))
+                            cases.append(stream_case(kind, client, fx, [f[4] for f in fx], "foreign:one-per-read", units=served_units))
+                            for c in r.sample(range(1, len(sx)), min(len(sx) - 1, 6 if quick else 30)):
+                                cases.append(stream_case(kind, client, fx, cuts_to_chunks(sx, [c]), "foreign:cut1", units=served_units))
     return Suite("b_c06", IMPORTS, "chk_c06", cases, shard=400)
 
 
@@ -796,12 +820,6 @@ def c06_regions(desc):
         # the known wrong oracles are those of the diagnostic classes (function code 8) only
         if not desc.get("size_ok", True) and any(f[2][:2] == "08" for f in desc["frames"]):
             regs.add("size")
-        consumed = 0
-        for t in cuts:
-            pending = sum(1 for (_, e, _) in spans if e <= t) - consumed
-            if pending >= 2:
-                regs.add("one-per-call")
-            consumed += min(1, pending)
         for (a, e, name) in spans:
             if name == "ReadDeviceInformationResponse" and any(a + 8 <= t < e for t in cuts):
                 regs.add("mei")
@@ -820,8 +838,6 @@ def c06_regions(desc):
 def c11_regions(desc):
     regs = set()
     if desc["kind"] == "rtu":
-        if desc["per_read"] > 1:
-            regs.add("several-per-read")
         if desc["client"] and desc.get("max_hdr_len", 0) > 65536:
             regs.add("fifo-size")
         if desc.get("garbage") == "undecodable" and not desc["reset"]:
@@ -841,11 +857,11 @@ FINDING_OF = {
     ("C03", "escaping"): "F-C03-binary-escaping", ("C03", "size"): "F-C03-rtu-size-oracle",
     ("C03", "pdu"): "F-C03-rtubin-pdu-not-decodable",
     ("C06", "escaping"): "F-C06-binary-escaping", ("C06", "incomplete-reset"): "F-C06-binary-incomplete-reset",
-    ("C06", "one-per-call"): "F-C06-rtu-one-frame-per-call", ("C06", "mei"): "F-C06-rtu-mei-partial-raises",
+    ("C06", "mei"): "F-C06-rtu-mei-partial-raises",
     ("C06", "size"): "F-C06-rtu-size-oracle", ("C06", "pdu"): "F-C06-rtubin-pdu-not-decodable",
     ("C06", "advance-skip"): "F-C06-binary-advance-skips-byte", ("C11", "advance-skip"): "F-C11-binary-several-per-read",
     ("C07", "stale-start"): "F-C07-binary-stale-start",
-    ("C11", "several-per-read"): "F-C11-rtu-backlog-several-per-read", ("C11", "fifo-size"): "F-C11-rtu-fifo-size",
+    ("C11", "fifo-size"): "F-C11-rtu-fifo-size",
     ("C11", "undecodable-deaf"): "F-C11-rtubin-undecodable-frame-deaf", ("C11", "short-brace"): "F-C11-binary-short-brace-deaf",
 }
 ORDER = ["escaping", "size", "pdu", "mei", "one-per-call", "incomplete-reset", "advance-skip", "several-per-read", "fifo-size",
